@@ -523,8 +523,9 @@ def packed_data_normalised(ctx, rule='factorized-matrix-normalised'):
                     if t[0] == '*' and sum(1 for u in t[1:] if u[0] == 'L' and u[1] in mags) >= 2:
                         deg2.append(pm.s(x)[:50])
         if not deg2:
-            ctx.ok(rule, rec.replace('Spectra::', '').split('<')[0] + '/pivot-tests', rec, 'no pivot test multiplies two magnitudes: nothing to normalise')
-            continue
+            ctx.ok(rule, rec.replace('Spectra::', '').split('<')[0] + '/pivot-tests', rec, 'no pivot test multiplies two magnitudes (quotient form, as in LAPACK): the normalisation is not demanded, '
+                   'but a normalisation that IS made must be undone consistently (below)')
+            deg2 = None
         inst = rec.replace('Spectra::', '').split('<')[0]
         for comp in ms.get('compute', []):
             n += 1
@@ -538,6 +539,9 @@ def packed_data_normalised(ctx, rule='factorized-matrix-normalised'):
             pcs = [c for c in comp.walk() if c['k'] == 'CXXMemberCallExpr' and c.get('callee') == 'permutate_mat']
             probs = []
             if not scal:
+                if deg2 is None:
+                    ctx.ok(rule, inst + '::compute', comp.qname, 'no normalisation and none needed')
+                    continue
                 probs.append('the packed copy is never scaled')
             else:
                 x0, f0 = scal[0]
@@ -560,14 +564,32 @@ def packed_data_normalised(ctx, rule='factorized-matrix-normalised'):
                     for sv in ms.get('solve_inplace', []):
                         back = [y for y in sv.walk() if y['k'] in ('CXXOperatorCallExpr', 'CompoundAssignOperator') and y.get('op') in ('*=', '/=') and
                                 F_ in atoms(sym(sv, (sv.call_args(y) if y['k'] == 'CXXOperatorCallExpr' else [sv.nodes[c] for c in y['c']])[1], inline=False))]
+                        def _dir(node, f_):
+                            a_ = sv_.call_args(node) if node['k'] == 'CXXOperatorCallExpr' else [sv_.nodes[c] for c in node['c']]
+                            r_ = sym(sv_, a_[1], inline=False)
+                            while isinstance(r_, tuple) and r_[0] in ('cast', 'ctor', 'paren') and len(r_) >= 2:
+                                r_ = r_[-1]
+                            recip = isinstance(r_, tuple) and r_[0] == '/' and f_ in atoms(r_[2]) and f_ not in atoms(r_[1])
+                            return 'div' if (node.get('op') == '*=' and recip) or (node.get('op') == '/=' and not recip) else 'mul'
+                        sv_ = comp
+                        d_data = _dir(x0, F_)
+                        sv_ = sv
+                        if back and any(_dir(y, F_) != d_data for y in back):
+                            probs.append('solve_inplace scales by %s in the other direction than compute() scales the packed copy: (A / s) x = b / s needs the same factor on both' % F_[1])
+                        # ... and it is the RIGHT-HAND SIDE that is scaled, before the substitutions: the solution of (A / s) y = b is
+                        # s x, which overflows for max|a_ij| |x_i| above realmax although x itself is representable
+                        loops_ = [l_ for l_ in sv.walk() if l_['k'] in ('ForStmt', 'WhileStmt')]
+                        if back and loops_ and d_data == 'div' and not all(y['l'] < min(l_['l'] for l_ in loops_) for y in back):
+                            probs.append('solve_inplace scales the SOLUTION by 1 / %s after the substitutions instead of the right-hand side before them: the intermediate vector is %s * x, which overflows '
+                                         '(A = diag(1e200, 1), b = (1, 1e110): x = (1e-200, 1e110) is returned as (NaN, inf))' % (F_[1], F_[1]))
                         ids = set(y['id'] for y in back)
                         if not back or paths.search(sv, [], stop=lambda n_: n_['id'] in ids, target=lambda n_: n_['k'] == 'ReturnStmt', include_entry=True,
                                                     exit_is_target=lambda b: True, normal_only=True) is not None:
                             probs.append('solve_inplace does not scale the solution by %s on every normal path' % F_[1])
             ctx.check(not probs, rule, inst + '::compute', comp.qname,
-                      'the pivot tests multiply two magnitudes (%s): the packed copy is divided by its largest magnitude before the first of them and the solution is scaled back' % deg2[0]
-                      if not probs else '%s although the pivot tests multiply two magnitudes (`%s`): both sides underflow to 0 for entries below about 1e-162 (3e-23 in float) -- a nonsingular [0 t; t 0] is '
-                      'reported singular, a tiny diagonal entry is accepted as pivot -- and overflow above about 1e154 (2e19 in float), where no interchange happens at all' % ('; '.join(probs), deg2[0]))
+                      'the packed copy is divided by its largest magnitude before the first pivot test and the solve is scaled consistently by the same member%s' % ('' if deg2 is None else ' (the pivot tests multiply two magnitudes: %s)' % deg2[0])
+                      if not probs else '%s although the factorization works on a normalised copy / the pivot tests multiply two magnitudes (`%s`): both sides underflow to 0 for entries below about 1e-162 (3e-23 in float) -- a nonsingular [0 t; t 0] is '
+                      'reported singular, a tiny diagonal entry is accepted as pivot -- and overflow above about 1e154 (2e19 in float), where no interchange happens at all' % ('; '.join(probs), (deg2 or ['-'])[0]))
     if n < 1:
         raise AnalysisBroken('BKLDLT::compute not analysed')
 
@@ -582,9 +604,46 @@ def run(ctx):
     callers_check_status(ctx)
     copy_data_triangle(ctx)
     packed_data_normalised(ctx)
+    no_vector_by_complex_division(ctx)
     # the solve applies the block structure the factorization recorded: sign string of the permutation array in (P | NN)*,
     # and every sign-directed scan of solve_inplace meets it aligned (rules/blockscan.py; the index proofs built on it are C13-D15)
     from . import blockscan
     blockscan.writers(ctx, 'solve-follows-recorded-block-structure')
     blockscan.compressed_list(ctx, 'solve-follows-recorded-block-structure')
     blockscan.readers(ctx, None, 'solve-follows-recorded-block-structure', discipline_only=True)
+
+
+def no_vector_by_complex_division(ctx, rule='no-element-wise-division-by-a-complex-scalar'):
+    """Eigen evaluates (vector expression) / z for a complex scalar z element-wise as x * conj(z) / |z|^2 (vectorised complex
+    quotient): |z|^2 underflows to 0 for |z| below 1e-162 (3e-23 in float) -- a tiny but perfectly good pivot of a graded
+    Hermitian matrix -- and every entry becomes NaN while info() stays Successful.  A scalar quotient z1 / z2 goes through the
+    C library's scaled division and is safe; so the factorization must divide vectors through the reciprocal (x * (1 / z)) or by
+    a real number.  Decided on the complex instantiations of BKLDLT by the static types of the operands."""
+    n = 0
+    found_complex = False
+    seen = set()
+    for fn in ctx.F.concrete():
+        if fn.cls != 'Spectra::BKLDLT' or not fn.cfg or 'complex' not in fn.record or fn.mangled in seen:
+            continue
+        seen.add(fn.mangled)
+        found_complex = True
+        bad = []
+        for x in fn.walk():
+            if x['k'] not in ('CXXOperatorCallExpr', 'CompoundAssignOperator', 'BinaryOperator') or x.get('op') not in ('/', '/='):
+                continue
+            a = fn.call_args(x) if x['k'] == 'CXXOperatorCallExpr' else [fn.nodes[c] for c in x['c']]
+            if len(a) < 2:
+                continue
+            t0 = (a[0].get('type') or a[0].get('t') or '')
+            t1 = (a[1].get('type') or a[1].get('t') or '')
+            n += 1
+            if 'Eigen::' in t0 and 'std::complex' in t1 and 'Eigen::' not in t1:
+                bad.append(fn.s(x)[:50])
+        if bad:
+            ctx.fail(rule, 'BKLDLT::%s' % fn.name, fn.qname,
+                     '%s divide(s) a vector expression by a complex scalar element-wise: the squared modulus of a pivot below 1e-162 (3e-23 in float) underflows, the column '
+                     'becomes NaN and solve() returns NaN with info() == Successful' % '; '.join('`%s`' % b for b in bad[:4]))
+        elif any(x['k'] in ('CXXOperatorCallExpr', 'CompoundAssignOperator', 'BinaryOperator') and x.get('op') in ('/', '/=') for x in fn.walk()):
+            ctx.ok(rule, 'BKLDLT::%s' % fn.name, fn.qname, 'every division is scalar by scalar, or by a real number')
+    if not found_complex or n < 10:
+        raise AnalysisBroken('complex instantiation of BKLDLT not analysed (%d divisions seen)' % n)
